@@ -464,6 +464,11 @@ def run_check(prop_factory, tier):
                          "hand-written Lean model tied to /repo by the differential correspondence run below",
                          *prop.trusted_base],
         "theorems": thms,
+        "nonvacuity": (lambda w: {"what": "property theorems applied to a concrete non-degenerate instance all of whose hypotheses "
+                                          "are proved (lean/CardVerif/Props/Witness/*.lean, built with the library)",
+                                  "theorems_with_witness": len([t for t in thms if t["name"].split(".")[-1] in w or
+                                                                any(x.endswith(t["name"].split(".")[-1]) for x in w)]),
+                                  "of": len(thms)})(set(core.witnessed(pid))),
         "evaluations": evaluations, "distinct_nontrivial": len(keys),
         "rule": prop.rule, "samples": samples,
         "exhaustive": bool(tier == "thorough" and any(r["exh_cases"] for r in results)),
